@@ -1040,8 +1040,8 @@ pub fn generate(rng: &mut Rng, tier: Tier, emit: &mut dyn FnMut(String)) {
     }
 
     // 2. random histories over the full token range (extremes, touching ranges), maintenance included
-    let scale = if quick { 1 } else { 12 };
-    for _ in 0..1500 * scale {
+    let scale = if quick { 1 } else { 6 };
+    for _ in 0..4000 * scale {
         let len = match rng.below(4) {
             0 => rng.range(2, 12) as usize,
             1 => rng.range(12, 60) as usize,
@@ -1050,12 +1050,12 @@ pub fn generate(rng: &mut Rng, tier: Tier, emit: &mut dyn FnMut(String)) {
         light.push(random_history(rng, len, false));
     }
     // 3. malformed stream: ill-formed inserts (the oracle stops at the first one; model and code must still agree)
-    for _ in 0..300 * scale {
+    for _ in 0..600 * scale {
         let len = rng.range(3, 60) as usize;
         light.push(random_history(rng, len, true));
     }
     // 4. TabletsInfo level
-    for _ in 0..600 * scale {
+    for _ in 0..1500 * scale {
         let len = rng.range(4, 60) as usize;
         light.push(info_history(rng, len));
     }
